@@ -36,6 +36,13 @@ def run(chk):
     import coxeter
 
     rng = chk.rng
+    # the batch contract of distance_to_surface for every class that has it
+    from .. import shapes as Z_
+    for cls_ in ("Circle", "Ellipse", "ConvexPolygon", "ConvexSpheropolygon"):
+        sh_, _ = Z_.make(cls_, offset=False) if cls_ in ("ConvexPolygon", "ConvexSpheropolygon") else Z_.make(cls_)
+        for prob_ in C.batch_contract(sh_.distance_to_surface, np.array([0.3, 1.0, -2.0, 4.0, 7.5, 0.0]), "f"):
+            chk.violation("batch-contract", dict(cls=cls_, what=prob_)); break
+        chk.count("batch-contract")
     nshape = 40 if chk.tier == "quick" else 600
     nang = 40 if chk.tier == "quick" else 200
     chk.notes["rule"] = ("convex polygons (regular and irregular, 3-30 vertices, axis-aligned edges, in-plane rotation and offset), rounding radii 0 and "
